@@ -119,7 +119,20 @@ def roundtrip(ctx, obj, fmt=None, **loader_kw):
     with store(ctx) as (f, reopen):
         H.Hdf5Saver(f, {'LegCharge': fmt} if fmt else None).save(obj)
         g = reopen()
-        return H.Hdf5Loader(g, **loader_kw).load()
+        return _load(ctx, H.Hdf5Loader(g, **loader_kw))
+
+
+class _Recursed(Exception):
+    pass
+
+
+def _load(ctx, loader):
+    """loader.load(); an unbounded recursion of the loader is a violation (not an engine / harness problem)"""
+    try:
+        return loader.load()
+    except RecursionError:
+        ctx.fail('loading recursed without end (RecursionError)', 'Hdf5Loader.load')
+        raise _Recursed() from None
 
 
 # ------------------------------------------------------------------------------------------ comparison
@@ -288,7 +301,7 @@ class _Cmp:
 
 
 def check_roundtrip(ctx, obj, fmt=None, what='obj', **kw):
-    loaded = roundtrip(ctx, obj, fmt)
+    loaded = roundtrip(ctx, obj, fmt)  # (_Recursed propagates: the case ends with the recorded violation)
     c = _Cmp(ctx, flat=(fmt == 'flat'), **kw)
     c.same(obj, loaded, what)
     ctx.note('roundtrips')
@@ -420,6 +433,24 @@ def containers_case(ctx, which):
         d['self'] = d
         inner = [arr]
         data = {'recursive': rec, 'd': d, 'shared': [inner, inner, (inner, )], 'x': x}
+    elif which == 'cyclic_general':
+        # self-reference through every container layout of the saver: dict with non-str keys (keys/values layout) directly,
+        # through a nested list, through a tuple, a list inside a general dict inside that list, and a simple (str-key)
+        # dict in a cycle with a general one
+        g1 = {0: 'zero', (1, 2): x}
+        g1[3] = g1
+        g2 = {0: 'zero', (1, 2): 'tuple-key'}
+        g2[3] = ['nested', g2]
+        g3 = {2.5: k}
+        g3[(4, )] = (1, g3, [g3])
+        l1 = [1]
+        l1.append({5: l1, (6, 7): [l1], None: z})
+        sd = {'a': None, 'v': arr}
+        g4 = {1: sd, 2: [sd]}
+        sd['a'] = g4
+        shared = {1: 'x', 2.5: 'y'}
+        data = {'g1': g1, 'g2': g2, 'g3': g3, 'l1': l1, 'g4': g4, 'first': shared, 'second': [shared], 7: 'top level is general too'}
+        data['top'] = data
     elif which == 'exportable':
         H = hio()
         e = H.Hdf5Exportable()
@@ -455,7 +486,10 @@ def containers_case(ctx, which):
     with store(ctx) as (f, reopen), warnings.catch_warnings():
         warnings.simplefilter('ignore')  # 'without explicit HDF5 format; fall back to pickle protocol'
         H.Hdf5Saver(f).save(data)
-        out = H.Hdf5Loader(reopen()).load()
+        try:
+            out = _load(ctx, H.Hdf5Loader(reopen()))
+        except _Recursed:
+            return
     if which == 'exportable':
         data.pop('ignored')
         ctx.prove('ignored' not in out, 'Hdf5Ignored objects are not saved')
@@ -466,6 +500,13 @@ def containers_case(ctx, which):
         ctx.prove(r[1] is r and r[3][1] is r, 'self-referential list survives')
         ctx.prove(out['d']['self'] is out['d'], 'self-referential dict survives')
         ctx.prove(out['shared'][0] is out['shared'][1] is out['shared'][2][0], 'list referenced three times is one list after loading')
+    if which == 'cyclic_general':
+        ctx.prove(out['g1'][3] is out['g1'], 'general dict containing itself directly survives')
+        ctx.prove(out['g2'][3][1] is out['g2'], 'general dict containing itself through a list survives')
+        ctx.prove(out['g3'][(4, )][1] is out['g3'] and out['g3'][(4, )][2][0] is out['g3'], 'general dict containing itself through a tuple survives')
+        ctx.prove(out['l1'][1][5] is out['l1'] and out['l1'][1][(6, 7)][0] is out['l1'], 'list inside a general dict inside that list survives')
+        ctx.prove(out['g4'][1]['a'] is out['g4'] and out['g4'][2][0] is out['g4'][1], 'simple dict in a cycle with a general dict survives')
+        ctx.prove(out['second'][0] is out['first'] and out['top'] is out, 'shared general dict shared; top-level general dict contains itself')
     if which == 'arrays':
         ctx.prove(out['twice'][0] is out['twice'][1] is out['sym'], 'array referenced three times is one array after loading')
     ctx.note('roundtrips')
@@ -551,7 +592,7 @@ def site_case(ctx, kind, fmt='blocks', cplx=False):
     _Cmp(ctx).same(s, cp, 'deepcopy(site)')
 
 
-def _mps(ctx, kind, cplx):
+def _mps(ctx, kind, cplx, mixed=False):
     from tenpy.networks.mps import MPS
     from tenpy.networks.purification_mps import PurificationMPS
     if kind == 'finite_singlets':
@@ -568,15 +609,17 @@ def _mps(ctx, kind, cplx):
     else:
         raise ValueError(kind)
     for i in range(psi.L):
-        psi._B[i] = _symbolize(ctx, psi._B[i], f'B{i}', cplx=cplx)
+        if mixed and i == 0:
+            continue  # first tensor stays a concrete real (float64) tensor, the later ones get (complex) symbolic entries
+        psi._B[i] = _symbolize(ctx, psi._B[i], f'B{i}', cplx=(cplx or mixed))
     psi._S = [ctx.array(f'S{i}', np.shape(s), pos=True) for i, s in enumerate(psi._S)]
     psi.norm = ctx.real('norm', pos=True)
-    psi.dtype = psi._B[0].dtype
+    psi.dtype = np.result_type(*[B.dtype for B in psi._B])  # the documented meaning of MPS.dtype
     return psi
 
 
-def mps_case(ctx, kind, fmt='blocks', cplx=False):
-    psi = _mps(ctx, kind, cplx)
+def mps_case(ctx, kind, fmt='blocks', cplx=False, mixed=False):
+    psi = _mps(ctx, kind, cplx, mixed)
     ctx.note('stored_blocks', sum(B.stored_blocks for B in psi._B))
     psi2 = check_roundtrip(ctx, psi, fmt, what='psi')
     ctx.prove(psi2.L == psi.L and psi2.bc == psi.bc and list(psi2.form) == list(psi.form) and psi2.finite == psi.finite, 'MPS: L, bc, form')
@@ -584,6 +627,7 @@ def mps_case(ctx, kind, fmt='blocks', cplx=False):
         _eq(ctx, psi2.get_B(i, None).to_ndarray(), psi.get_B(i, None).to_ndarray(), 'MPS: tensors')
         ctx.prove(psi2.get_B(i, None).get_leg_labels() == psi.get_B(i, None).get_leg_labels(), 'MPS: labels')
     _eq(ctx, psi2.norm, psi.norm, 'MPS: norm')
+    ctx.prove(psi2.dtype == psi.dtype == np.result_type(*[B.dtype for B in psi2._B]), 'MPS: dtype is the common dtype of all tensors')
     ctx.prove(all(b.legs[b.get_leg_index('p')] is s.leg for b, s in zip(psi2._B, psi2.sites)) or
               not all(b.legs[b.get_leg_index('p')] is s.leg for b, s in zip(psi._B, psi.sites)), 'MPS: physical legs shared with sites as before')
     cp = copy.deepcopy(psi)
@@ -620,7 +664,7 @@ def umps_case(ctx, kind, fmt='blocks', cplx=False):
             _eq(ctx, a.to_ndarray(), b.to_ndarray(), 'MomentumMPS: excitation tensors')
 
 
-def mpo_case(ctx, kind, fmt='blocks', cplx=False):
+def mpo_case(ctx, kind, fmt='blocks', cplx=False, mixed=False):
     from tenpy.models.tf_ising import TFIChain
     from tenpy.models.xxz_chain import XXZChain
     if kind == 'tfi_finite':
@@ -632,10 +676,13 @@ def mpo_case(ctx, kind, fmt='blocks', cplx=False):
     else:
         raise ValueError(kind)
     for i in range(H.L):
-        H._W[i] = _symbolize(ctx, H._W[i], f'W{i}', cplx=cplx)
-    H.dtype = H._W[0].dtype
+        if mixed and i == 0:
+            continue  # first tensor concrete real, later ones complex symbolic
+        H._W[i] = _symbolize(ctx, H._W[i], f'W{i}', cplx=(cplx or mixed))
+    H.dtype = np.result_type(*[W.dtype for W in H._W])
     ctx.note('stored_blocks', sum(W.stored_blocks for W in H._W))
     H2 = check_roundtrip(ctx, H, fmt, what='H')
+    ctx.prove(H2.dtype == H.dtype == np.result_type(*[W.dtype for W in H2._W]), 'MPO: dtype is the common dtype of all tensors')
     ctx.prove(H2.L == H.L and H2.bc == H.bc and list(H2.IdL) == list(H.IdL) and list(H2.IdR) == list(H.IdR) and
               H2.max_range == H.max_range and bool(H2.explicit_plus_hc) == bool(H.explicit_plus_hc), 'MPO: L, bc, IdL, IdR, max_range, plus_hc')
     for i in range(H.L):
@@ -1043,7 +1090,7 @@ def CASES(tier, seed):
         add(f'Array[{fmt},rank3,pipe,mod=[1]]', 'array_case', sizes=[[1, 1], [1, 1], [1, 2]], mods=[1], qconjs=[1, 1, -1], fmt=fmt, pipe=True)
         add(f'Array[{fmt},rank1,mod=[2]]', 'array_case', sizes=[[1, 1, 1]], mods=[2], qconjs=[-1], fmt=fmt, shared=False)
         add(f'Array[{fmt},nocharge]', 'array_case', sizes=[[2], [3]], mods=[], qconjs=[1, -1], fmt=fmt, cplx=True)
-    for which in ('scalars', 'arrays', 'iterables', 'cyclic', 'exportable', 'reduce:OrderedDict', 'reduce:deque', 'reduce:defaultdict',
+    for which in ('scalars', 'arrays', 'iterables', 'cyclic', 'cyclic_general', 'exportable', 'reduce:OrderedDict', 'reduce:deque', 'reduce:defaultdict',
                   'reduce:state', 'global:metaclass'):
         add(f'containers[{which}]', 'containers_case', which=which)
     add('loader_options', 'loader_options_case')
@@ -1057,6 +1104,9 @@ def CASES(tier, seed):
             if fmt == 'compact' and kind not in ('finite_singlets', 'segment'):
                 continue
             add(f'MPS[{kind},{fmt}]', 'mps_case', kind=kind, fmt=fmt, cplx=(kind == 'infinite_singlets' or th), **B)
+    add('MPS[finite_singlets,blocks,mixed real/complex tensors]', 'mps_case', kind='finite_singlets', fmt='blocks', mixed=True, **B)
+    add('MPS[infinite_singlets,compact,mixed real/complex tensors]', 'mps_case', kind='infinite_singlets', fmt='compact', mixed=True, **B)
+    add('MPO[tfi_finite,blocks,mixed real/complex tensors]', 'mpo_case', kind='tfi_finite', fmt='blocks', mixed=True, **B)
     for kind in ('UniformMPS', 'MomentumMPS'):
         add(f'{kind}[blocks]', 'umps_case', kind=kind, fmt='blocks', cplx=(kind == 'MomentumMPS'), **B)
     for kind in ('tfi_finite', 'xxz_infinite', 'plus_hc'):
